@@ -7,14 +7,14 @@ WT="/tmp/wtv/${ID}_$V"; OUT="/verif/seeded/${ID}_$V"
 rm -rf "$WT"; mkdir -p /tmp/wtv
 git -C /repo worktree add -q --detach "$WT" HEAD || exit 2
 cd "$WT" || exit 2
-PYTHONPATH="$WT" /venv/bin/python -W ignore "$SRC/demo.py" > /tmp/wtv/${ID}_$V.demo0.log 2>&1; D0=$?
-if ! git apply "$PATCH" 2>/tmp/wtv/${ID}_$V.apply.log; then
+PYTHONPATH="$WT" timeout 300 /venv/bin/python -W ignore "$SRC/demo.py" > /tmp/wtv/${ID}_$V.demo0.log 2>&1; D0=$?
+if ! git apply "$PATCH" 2>/tmp/wtv/${ID}_$V.apply.log && ! git apply --3way "$PATCH" 2>>/tmp/wtv/${ID}_$V.apply.log && ! patch -p1 --fuzz=3 -s < "$PATCH" 2>>/tmp/wtv/${ID}_$V.apply.log; then
   echo "$ID $V: patch does not apply to HEAD"; cat /tmp/wtv/${ID}_$V.apply.log | head -3
   cd /; git -C /repo worktree remove --force "$WT"; exit 3
 fi
 /venv/bin/python -W ignore -m pytest -q -p no:cacheprovider --timeout=900 pyPRISM > /tmp/wtv/${ID}_$V.tests.log 2>&1; T=$?
 TP=$(grep -Eo '[0-9]+ passed' /tmp/wtv/${ID}_$V.tests.log | tail -1)
-PYTHONPATH="$WT" /venv/bin/python -W ignore "$SRC/demo.py" > /tmp/wtv/${ID}_$V.demo1.log 2>&1; D1=$?
+PYTHONPATH="$WT" timeout 300 /venv/bin/python -W ignore "$SRC/demo.py" > /tmp/wtv/${ID}_$V.demo1.log 2>&1; D1=$?
 git diff > /tmp/wtv/${ID}_$V.rebased.diff
 cd /; git -C /repo worktree remove --force "$WT"
 echo "$ID $V: demo_unpatched=$D0 tests_exit=$T ($TP) demo_patched=$D1"
